@@ -103,7 +103,18 @@ impl Database {
         let mut outputs: Vec<Chunk> = vec![];
         for stmt in stmts {
             let mut binder = crate::binder::Binder::new(self.catalog.clone());
-            let mut plan = binder.bind(stmt.clone()).map_err(|e| e.with_sql(&sql))?;
+            // the binder has `todo!()`s and unwraps of its own (unsupported literals and clauses)
+            let bound = std::panic::catch_unwind(std::panic::AssertUnwindSafe(|| {
+                binder.bind(stmt.clone())
+            }));
+            let mut plan = bound
+                .map_err(|payload| {
+                    crate::executor::ExecutorError::panicked(format!(
+                        "binder: {}",
+                        panic_message(payload)
+                    ))
+                })?
+                .map_err(|e| e.with_sql(&sql))?;
             if self.handle_set(&plan)? {
                 continue;
             }
@@ -124,14 +135,10 @@ impl Database {
                 }
             }));
             let executor = built.map_err(|payload| {
-                let message = if let Some(s) = payload.downcast_ref::<&str>() {
-                    s.to_string()
-                } else if let Some(s) = payload.downcast_ref::<String>() {
-                    s.clone()
-                } else {
-                    "unknown panic".to_string()
-                };
-                crate::executor::ExecutorError::panicked(format!("planner: {message}"))
+                crate::executor::ExecutorError::panicked(format!(
+                    "planner: {}",
+                    panic_message(payload)
+                ))
             })?;
             let output = executor.try_collect().await?;
             let mut chunk = Chunk::new(output);
@@ -213,6 +220,17 @@ impl Database {
     /// Return all available pragma options.
     fn pragma_options() -> &'static [&'static str] {
         &["enable_optimizer", "disable_optimizer"]
+    }
+}
+
+/// The message of a caught panic.
+fn panic_message(payload: Box<dyn std::any::Any + Send>) -> String {
+    if let Some(s) = payload.downcast_ref::<&str>() {
+        s.to_string()
+    } else if let Some(s) = payload.downcast_ref::<String>() {
+        s.clone()
+    } else {
+        "unknown panic".to_string()
     }
 }
 
